@@ -152,6 +152,44 @@ def run_fragment(body: Sequence[ast.stmt], names: Dict[str, Any], attrs: Optiona
 
         from .astutil import attr_chain as _chain
 
+        if isinstance(t.value, ast.Subscript):
+            # a[i][j] = v with integer positions: the same store as a[i, j] = v
+            chain_, base_e = [t.slice], t.value
+            while isinstance(base_e, ast.Subscript):
+                chain_.insert(0, base_e.slice)
+                base_e = base_e.value
+            idxs_ = []
+            for sl_ in chain_[:-1]:
+                iv_ = fold(sl_)
+                if isinstance(iv_, bool) or not isinstance(iv_, int):
+                    raise Unfoldable("chained subscript store through a non-integer position")
+                idxs_.append(iv_)
+            root_is_list = (isinstance(base_e, ast.Name) and isinstance(env.get(base_e.id), list) and not isinstance(env.get(base_e.id), PySeq)) or (isinstance(base_e, ast.Attribute) and isinstance(attrs.get(_chain(base_e)), list) and not isinstance(attrs.get(_chain(base_e)), PySeq))
+            last_ = chain_[-1]
+            if root_is_list and not isinstance(last_, (ast.Tuple, ast.Slice)):
+                lv_ = fold(last_)
+                if isinstance(lv_, int) and not isinstance(lv_, bool):
+                    idxs_.append(lv_)
+                    new_t = ast.Subscript(value=base_e, slice=ast.Tuple(elts=[ast.Constant(value=i_) for i_ in idxs_], ctx=ast.Load()), ctx=ast.Store())
+                    if len(idxs_) == 2:
+                        return store_sub(ast.fix_missing_locations(new_t), v)
+                    # deeper chains: navigate
+                    root = copy.deepcopy(env[base_e.id] if isinstance(base_e, ast.Name) else attrs[_chain(base_e)])
+                    cur_ = root
+                    for i_ in idxs_[:-1]:
+                        if not isinstance(cur_, list) or not (-len(cur_) <= i_ < len(cur_)):
+                            raise Unfoldable("chained store index out of range")
+                        cur_ = cur_[i_]
+                    if not isinstance(cur_, list) or not (-len(cur_) <= idxs_[-1] < len(cur_)) or isinstance(cur_[idxs_[-1]], list) != isinstance(v, list):
+                        raise Unfoldable("chained store shape mismatch")
+                    cur_[idxs_[-1]] = copy.deepcopy(v)
+                    if isinstance(base_e, ast.Name):
+                        refuse_shared(base_e.id)
+                        env[base_e.id] = root
+                    else:
+                        attrs[_chain(base_e)] = root
+                    return
+            raise Unfoldable("chained subscript store")
         if isinstance(t.value, ast.Name):
             refuse_shared(t.value.id)
         if isinstance(t.value, ast.Name) and isinstance(env.get(t.value.id), dict):
@@ -582,6 +620,34 @@ def run_fragment(body: Sequence[ast.stmt], names: Dict[str, Any], attrs: Optiona
                         raise Unfoldable("index_fill_ beyond 1-D")
                     for t_ in idx_:
                         cur_[t_] = val_
+                    env[c.func.value.id] = cur_
+                elif isinstance(c, ast.Call) and isinstance(c.func, ast.Attribute) and c.func.attr == "scatter_" and len(c.args) == 3 and not c.keywords and isinstance(c.func.value, ast.Name) and isinstance(env.get(c.func.value.id), list) and not isinstance(env.get(c.func.value.id), PySeq):
+                    # x.scatter_(dim, index, value | src): x[..., index[pos], ...] = value / src[pos] for every position of index
+                    import copy as _cp
+                    import itertools as _it
+
+                    from .constfold import _at, _regular
+
+                    d_, ix_, sv_ = fold(c.args[0]), fold(c.args[1]), fold(c.args[2])
+                    cur_ = _cp.deepcopy(env[c.func.value.id])
+                    shp_ = _regular(cur_)
+                    if not (isinstance(d_, int) and not isinstance(d_, bool) and -len(shp_) <= d_ < len(shp_)) or not isinstance(ix_, list) or isinstance(ix_, PySeq):
+                        raise Unfoldable("scatter_ arguments")
+                    d_ %= len(shp_)
+                    ishp_ = _regular(ix_)
+                    if len(ishp_) != len(shp_) or (isinstance(sv_, list) and _regular(sv_)[: len(ishp_)] != ishp_ and any(a_ > b_ for a_, b_ in zip(ishp_, _regular(sv_)))):
+                        raise Unfoldable("scatter_ shapes")
+                    refuse_shared(c.func.value.id)
+                    for pos_ in _it.product(*[range(n_) for n_ in ishp_]):
+                        j_ = _at(ix_, pos_)
+                        if isinstance(j_, bool) or not isinstance(j_, int) or not (0 <= j_ < shp_[d_]) or any(pos_[a_] >= shp_[a_] for a_ in range(len(shp_)) if a_ != d_):
+                            raise Unfoldable("scatter_ index out of range")
+                        tgt_ = list(pos_)
+                        tgt_[d_] = j_
+                        cell_ = cur_
+                        for a_ in tgt_[:-1]:
+                            cell_ = cell_[a_]
+                        cell_[tgt_[-1]] = _at(sv_, pos_) if isinstance(sv_, list) else sv_
                     env[c.func.value.id] = cur_
                 elif isinstance(c, ast.Call) and isinstance(c.func, ast.Attribute) and c.func.attr in ("fill_", "copy_") and len(c.args) == 1 and isinstance(c.func.value, (ast.Attribute, ast.Name)):
                     # in-place overwrite of a scalar buffer / variable
